@@ -80,10 +80,6 @@ Proof.
   unfold root_of, orig_or_self. rewrite L, L', E. auto.
 Qed.
 
-(** class [x] has field [k], of a type whose root is [R] *)
-Definition has (s : store) (x : cid) (k : fname) (R : cid) : Prop :=
-  exists t', tassoc k (fields_of s x) = Some t' /\ root_of s t' = R.
-
 (** * the delayed child attributes applied to a new field's type *)
 Lemma delayed_type_ok : forall s c k t s1 t1 rt,
   inv s -> lookup s t = Some rt -> delayed_type s c k t = ROk (s1, t1) ->
